@@ -118,8 +118,13 @@ class Run:
                     lines.append('KNOWN-FINDING: property=%s %s [key=%s]' % (self.pid, k['what'], o.key))
                 else:
                     n_viol += 1
-                    o.replay_path = write_replay(self.pid, o)
-                    lines.append('VIOLATION property=%s replay=%s' % (self.pid, o.replay_path))
+                    # one VIOLATION line (and replay file) per distinct role; further obligations with the same role are listed in the evidence
+                    first = next((x for x in self.obls if x.status == 'violated' and x.key == o.key and x.replay_path), None)
+                    if first is not None:
+                        o.replay_path = first.replay_path
+                    else:
+                        o.replay_path = write_replay(self.pid, o)
+                        lines.append('VIOLATION property=%s replay=%s' % (self.pid, o.replay_path))
             elif o.status == 'inconclusive':
                 n_inconcl += 1
         # distinct known-finding lines only once each
